@@ -340,9 +340,12 @@ fn check_shared(input: &Shared, case: &mut Case) -> Result<(), Fail> {
     } else {
         ensure!(w.is_none(), "c17:without", "{}: without = {:?}", what, w);
     }
-    // "re-creating it gives an equal name": equality is equality of labels, so it must also tell these two apart
-    let eq = lib("==", || x == y)?;
-    ensure!(eq == (xl == yl), "c17:equality", "{}: == is {}", what, eq);
+    // "re-creating it gives an equal name": two names made from the same labels are equal wherever their text is
+    // stored (what == says about names with different labels is not part of this statement)
+    if xl == yl {
+        let eq = lib("==", || x == y)?;
+        ensure!(eq, "c17:equality", "{}: the same labels, but == is false", what);
+    }
     let again = lib("Name::new(to_string)", || Name::new(&x.to_string()).map(|r| r == x))?;
     ensure!(matches!(again, Ok(true)), "c17:recreate", "{}: the first, displayed and re-created: {:?}", what, again);
     Ok(())
